@@ -229,6 +229,11 @@ func (t *Table) AddGlobalIndexes(input []*types.GlobalSecondaryIndex) error {
 }
 
 func (t *Table) addGlobalIndex(gsiInput *types.GlobalSecondaryIndex) error {
+	if _, ok := t.Indexes[types.StringValue(gsiInput.IndexName)]; ok {
+		// an index is never silently replaced by another one of the same name
+		return types.NewError("ValidationException", "Attempting to create an index which already exists: "+types.StringValue(gsiInput.IndexName), nil)
+	}
+
 	i, err := buildGSI(t, gsiInput)
 	if err != nil {
 		return err
@@ -284,6 +289,10 @@ func (t *Table) AddLocalIndexes(input []*types.LocalSecondaryIndex) error {
 	}
 
 	for _, lsi := range input {
+		if _, ok := t.Indexes[types.StringValue(lsi.IndexName)]; ok {
+			return types.NewError("ValidationException", "Duplicate index name: "+types.StringValue(lsi.IndexName), nil)
+		}
+
 		i, err := buildLSI(t, lsi)
 		if err != nil {
 			return err
